@@ -125,7 +125,7 @@ class Scenario(object):
 
     def run(self, extra_argv=(), filters=()):
         self.session += 1
-        with cached_config():
+        with cached_config(), scripted_debug_mode('-d' in extra_argv or '--debug' in extra_argv):
             return drive.run_session(self.wd, list(extra_argv) + [self.conf] + list(filters), self.script)
 
     def read(self):
@@ -146,6 +146,31 @@ class Scenario(object):
                 for (c, s) in dp:
                     idx[s] = (st['n'], j, c)
         return idx
+
+
+@contextlib.contextmanager
+def scripted_debug_mode(active):
+    """`-d` also makes ReBench stream the child's output through real file descriptors and select();
+    scripted processes have none.  The debug flag is left as it is for everything else (UI, loader
+    messages); only the `verbose` argument of subprocess_with_timeout.run is switched off."""
+    if not active:
+        yield
+        return
+    from rebench import subprocess_with_timeout as swt
+    from rebench.model import profiler as prof
+    real = swt.run
+
+    def run(*a, **kw):
+        kw['verbose'] = False
+        return real(*a, **kw)
+    saved_prof = prof.run
+    swt.run = run
+    prof.run = run
+    try:
+        yield
+    finally:
+        swt.run = real
+        prof.run = saved_prof
 
 
 _CONFIG_CACHE = {}
